@@ -209,7 +209,24 @@ class Session:
                 out["degree"] = int(pol.degree())
                 return ev
             if op == "time_at":
-                phi = pb.Phase(np.int64(a["phi"]["i"]), unhx(a["phi"]["f"]))
+                if a.get("at"):
+                    # the phase the predictor itself gives at a boundary instant of the table (the end or
+                    # start of a row's span, or of a merged interval), optionally moved by ulps of its
+                    # fractional part: time_at(p(t_boundary)); the specification sees only the exact phase
+                    at = a["at"]
+                    ev["phi"] = phase_rec(0, 0.0)
+                    if at["of"] == "entry":
+                        half = p["span"][at["row"]] / 2
+                        tb = p["tmid"][at["row"]] + (half if at["edge"] == "end" else -half)
+                    else:
+                        tb = p.intervals[at["ivl"]][1 if at["edge"] == "end" else 0]
+                    pb_ = p(tb)
+                    fi, ff = float(pb_.int.value), float(pb_.frac.value)
+                    for _ in range(abs(at["ulps"])):
+                        ff = float(np.nextafter(ff, math.inf if at["ulps"] > 0 else -math.inf))
+                    phi = pb.Phase(np.int64(fi), ff)
+                else:
+                    phi = pb.Phase(np.int64(a["phi"]["i"]), unhx(a["phi"]["f"]))
                 ev["phi"] = phase_rec(phi.int.value, phi.frac.value)
                 g = make_time(a["guess"]) if a.get("guess") else None
                 t1 = p.time_at(phi) if g is None else p.time_at(phi, guess=g)
@@ -584,6 +601,9 @@ def gen_session(rnd, text, desc, nevents, via):
     scales = ["utc"]
     if desc.get("other_scale"):            # times handed over in TAI / TT instead of the table's UTC
         scales = ["tai", "tt"]
+    inverse_ok = desc["monotone"] and (desc["entries"] is not None or desc["family"] == "real") and scales == ["utc"]
+    if inverse_ok:
+        acts += gen_boundary_inverse(rnd, desc, aim, n, 3)
     while len(acts) < nevents:
         r = rnd.random()
         scale = rnd.choice(scales)
@@ -599,6 +619,8 @@ def gen_session(rnd, text, desc, nevents, via):
             acts.append({"op": "subset", "rows": rows, "how": how})
             aim = Aim(rnd, desc, rows)
             acts.append({"op": "intervals"})
+            if inverse_ok:
+                acts += gen_boundary_inverse(rnd, desc, aim, len(rows), 1)
         elif r < 0.40:
             if scale != "utc" and rnd.random() < 0.6:
                 acts.append({"op": "call", "times": times_arg([T(aim.near_end_for_scale())]), "cls": "scale-near-end"})
@@ -649,6 +671,29 @@ def model_phase(desc, x):
     e = ent[best]
     dt = (x - e["tmid"]) * 1440
     return e["rphase"] + 60 * e["f0"] * dt + sum(c * dt ** j for j, c in enumerate(e["c"]))
+
+
+def gen_boundary_inverse(rnd, desc, aim, nrows, limit):
+    """time_at(p(t)) for t exactly at the boundaries of the current table: where consecutive rows meet
+    (end of row k / start of row k+1: inside a merged interval whenever they touch or overlap), at the
+    start and end of every merged interval, the phase taken exactly and one ulp to either side, with and
+    without guess=.  Which of these must succeed and which must raise is decided by the specification."""
+    acts = []
+
+    def guess():
+        return times_arg([aim.mjd_time(aim.inside())]) if rnd.random() < 0.4 else None
+    pairs = list(range(nrows - 1))
+    rnd.shuffle(pairs)
+    for k in pairs[:limit]:
+        acts.append({"op": "time_at", "at": {"of": "entry", "row": k, "edge": "end", "ulps": 0}, "guess": None})
+        acts.append({"op": "time_at", "at": {"of": "entry", "row": k + 1, "edge": "start", "ulps": 0}, "guess": guess()})
+        acts.append({"op": "time_at", "at": {"of": "entry", "row": rnd.choice([k, k + 1]), "edge": rnd.choice(["end", "start"]),
+                                            "ulps": rnd.choice([-1, 1, -2, 2])}, "guess": guess()})
+    for j in range(min(len(aim.merged), 2)):
+        for edge in ("start", "end"):
+            acts.append({"op": "time_at", "at": {"of": "interval", "ivl": j, "edge": edge, "ulps": rnd.choice([0, 0, -1, 1])},
+                         "guess": guess()})
+    return acts
 
 
 def gen_time_at(rnd, desc, aim):
@@ -866,13 +911,15 @@ def run(chk):
     r = tlc.run("MC_Polyco", "MC_Polyco_full.cfg" if thorough else "MC_Polyco_quick.cfg", timeout=2400, heap="2g")
     chk.mc_must_hold("MC_Polyco_" + ("full" if thorough else "quick"), r)
     chk.exhaustive = r.ok
-    for cfg, inv in (("Neg_Polyco_notol.cfg", "MergeLoopIsDeclared"), ("Neg_Polyco_right.cfg", "SelectIsContaining")):
+    for cfg, inv in (("Neg_Polyco_notol.cfg", "MergeLoopIsDeclared"), ("Neg_Polyco_right.cfg", "SelectIsContaining"),
+                     ("Neg_Polyco_entry.cfg", "InverseRange")):
         rn = tlc.run("MC_Polyco", cfg, workers=4, timeout=1200, heap="2g")
         chk.add_tlc(cfg, rn)
         if rn.violation != inv:
             chk.machinery_errors.append("negative model %s was not rejected by %s (got %r)" % (cfg, inv, rn.violation))
     chk.notes["negative_models_rejected"] = ["Neg_Polyco_notol (merge without 1 ms tolerance)",
-                                             "Neg_Polyco_right (searchsorted side='right')"]
+                                             "Neg_Polyco_right (searchsorted side='right')",
+                                             "Neg_Polyco_entry (time_at range check strictly inside one row's span)"]
     # 2. drive the real code
     sessions = build_sessions(chk)
     traces = execute(sessions)
@@ -942,7 +989,7 @@ def run(chk):
         if "n" in a and e["ev"] == "f0":
             d["n"] = a["n"]
         if e["ev"] == "time_at":
-            d["phase"] = "%d%+.12f" % (a["phi"]["i"], unhx(a["phi"]["f"]))
+            d["phase"] = ("%d%+.12f" % (a["phi"]["i"], unhx(a["phi"]["f"]))) if a.get("phi") else "p(boundary %r)" % (a["at"],)
         if out["raised"]:
             d["real_result"] = "raised " + out["raised"]
         elif e["ev"] == "call":
